@@ -125,6 +125,16 @@ pub fn build(id: &str, tier: Tier) -> Option<Check> {
                 essential: vec!["c08_batch_close_checked", "c08_release_transition", "c08_unbond_within_epoch", "c08_withdraw_timelock_checked", "c08_released_entry_compared"],
             }
         }
+        "C09" => Check {
+            id: "C09",
+            jobs: vec![
+                bfs(hub("c09-exits", |h| { h.arm.c09 = true; h.with_rewards = true; h.with_transfers = true; h.budget = tier.pick(1, 2); h.slash_fracs = vec![(1, 10), (1, 2)]; h.seeds = if q { vec!["funded", "slashed", "inflight"] } else { vec!["funded", "slashed", "slashed_unseen", "inflight", "rewarded", "three_vals"] }; }), tier.pick(3, 5), secs),
+                bfs(hub("c09-pegfee", |h| { h.arm.c09 = true; h.peg_fee = "0.01"; h.seeds = vec!["slashed"]; h.budget = 1; }), tier.pick(3, 4), secs),
+            ],
+            rule: "in every distinct state of a hub-core exploration (bond, unbond, convert, withdraw, transfers, reward accrual and index updates, time, <= F slashing deviations incl. 50% slashes and full pool drains) a probe runs on clones: every holder unbonds one unit and its whole balance of each token; the whole-balance exit is continued (jump past the epoch, a fresh holder's one-unit unbond must close the batch, jump past the unbonding period, withdraw); and every user-facing transition (bond, unbond, convert, withdraw, slashing check, token transfer/send, reward claim) is re-executed under the 8 other swap/oracle stub-mode combinations (ok/fail/garbage) and must give the identical result, effects and post-state; non-trivial = a state with exit probes or a transition with stub-mode products".into(),
+            assumptions: envelope(),
+            essential: vec!["c09_exit_probes", "c09_exit_completed", "c09_stub_mode_products"],
+        },
         "C12" => Check {
             id: "C12",
             jobs: vec![Box::new(C12Enum { max_len: tier.pick(4, 5), max_val: tier.pick(5, 7) })],
